@@ -17,13 +17,15 @@ Inductive ev : Type :=
 | EDrop (x : Z)     (* the crate (or drop glue it triggers) runs the destructor of x *)
 | EMove (x : Z)     (* x is handed to the caller by value: the caller now owns it *)
 | EObs (x : Z)      (* x is observed through a reference handed to the caller *)
-| ENew (x : Z).     (* x comes into existence (clone result, generated value) *)
+| ENew (x : Z)      (* x comes into existence (clone result, generated value) *)
+| ELeak (x : Z).    (* x was moved out of its container and then abandoned by unwinding:
+                       its destructor never runs (allowed: a leak, not a double drop) *)
 
 Definition ev_id (e : ev) : Z :=
-  match e with EDrop x | EMove x | EObs x | ENew x => x end.
+  match e with EDrop x | EMove x | EObs x | ENew x | ELeak x => x end.
 
 Definition is_release (e : ev) : bool :=
-  match e with EDrop _ | EMove _ => true | _ => false end.
+  match e with EDrop _ | EMove _ | ELeak _ => true | _ => false end.
 
 Definition releases (t : list ev) : list Z := map ev_id (filter is_release t).
 
